@@ -12,10 +12,13 @@ KINDS = {
     "hsv": dict(own="Hsv8", soa="HsvC", ty="Hsv<Srgb, {C}>", hue=True, alpha=False),
     "hsva": dict(own="Hsva8", soa="HsvaC", ty="Alpha<Hsv<Srgb, {C}>, {C}>", hue=True, alpha=True),
 }
-CONT = {"vec": "Vec<u8>", "arr": "[u8; {N}]", "slice": "&[u8]", "mslice": "&mut [u8]"}
+CONT = {"vec": "Vec<u8>", "arr": "[u8; {N}]", "slice": "&[u8]", "mslice": "&mut [u8]", "boxed": "Box<[u8]>"}
 
-# Tier plan (measured with PV_JOBS=4, see the report): everything with n <= 2 is quick, n = 3 and the n = 3 scripts are thorough.
+# Tier plan (measured with PV_JOBS=4): Vec forms with n <= 2 and array/slice forms with n = 2 are quick; n = 3, the array/slice
+# forms with n = 0, 1, the Box<[u8]> forms (n = 2 only: borrowed iteration and get/get_mut), the general-RangeBounds drain and the
+# multi-step scripts (except pop-then-extend at n = 2) are thorough.
 QUICK_N = (0, 1, 2)
+QUICK_N_OTHER = (2,)   # arrays / slices: the same generic get / Iter code as the Vec forms, only n = 2 in the quick tier
 ALL_N = (0, 1, 2, 3)
 
 
@@ -33,6 +36,8 @@ def state(K, cont, n, mut=True):
         s.append(f"let {mm}x: {soa}<Vec<u8>> = vec_state(&items);")
     elif cont == "arr":
         s.append(f"let {mm}x: {soa}<[u8; {n}]> = array_state(&items);")
+    elif cont == "boxed":
+        s.append(f"let {mm}x: {soa}<Box<[u8]>> = boxed_state(&items);")
     elif cont == "slice":
         s.append(f"let (b0, b1, b2, b3) = (column(&items, 0), column(&items, 1), column(&items, 2), column(&items, 3));")
         s.append(f"let {mm}x: {soa}<&[u8]> = Soa::from_comps((&b0[..], &b1[..], &b2[..]), Some(&b3[..]));")
@@ -69,7 +74,7 @@ DRAIN_USE = """{
 def fns(K, cont, n, names):
     """@fn lines: the palette functions an operation goes through for this kind/container."""
     k = KINDS[K]
-    C = {"vec": "Vec<T>", "arr": "[T; N]", "slice": "&[T]", "mslice": "&mut [T]"}[cont]
+    C = {"vec": "Vec<T>", "arr": "[T; N]", "slice": "&[T]", "mslice": "&mut [T]", "boxed": "Box<[T]>"}[cont]
     base = ("Hsv" if k["hue"] else "Rgb") + f"<S, {C}>"
     out = []
     for nm in names:
@@ -111,7 +116,7 @@ def gen():
         k = KINDS[K]
         ty = k["ty"].format(C=cty(cont, n))
         name = f"c18_{K}_{cont}_n{n}_{op}"
-        th = (n not in QUICK_N) if thorough is None else thorough
+        th = (cont == "boxed" or n not in (QUICK_N if cont == "vec" else QUICK_N_OTHER)) if thorough is None else thorough
         st = state(K, cont, n, mut) if pre is None else pre
         grows = cont == "vec" and (op in ("push", "extend") or op.startswith("script"))
         cap = "; component vectors start with capacity == length, so the first push/extend reallocates (Vec growth to capacity 8)" if grows else ""
@@ -142,73 +147,62 @@ def gen():
                  "Vec::drain like the model's; panics cannot be observed by the runner, so that case is not an obligation); "
                  "k, j <= 2", n)
             # ---------------------------------------------------------------- all containers: reads, writes in place, iteration
-            for cont in ("vec", "arr", "slice", "mslice"):
+            for cont in ("vec", "arr", "slice", "mslice") + (("boxed",) if n == 2 else ()):
                 mutable = cont != "slice"
-                emit(K, cont, n, "get", f"get(i) for every usize i returns the model's get(i) (None exactly when i >= n); {POST_DOC}",
-                     f"let i: usize = kani::any();\nsame_opt(x.get(i), m.get(i));\n{POST}", ["get"], "index unrestricted", n, mut=False)
-                emit(K, cont, n, "get_range",
-                     "get(lo..hi) for every pair of usize (valid, empty, full, inverted, out of range) is Some exactly when the model's is, "
-                     f"and then every component sub-slice has the model sub-slice's length and contents; {POST_DOC}",
-                     f"let lo: usize = kani::any();\nlet hi: usize = kani::any();\nsame_opt_slice(x.get(lo..hi), m.get(lo..hi));\n{POST}",
-                     ["get"], "range bounds unrestricted", n, mut=False)
+                mixed = "".join("    if kani::any() { step(&mut ix, &mut im); } else { step_back(&mut ix, &mut im); }\n"
+                                "    assert!(ix.len() == im.len());\n" for _ in range(n + 1))
+                mixed_w = "".join(f"    if kani::any() {{ write_opt(ix.next(), im.next(), w[{i}]); }} else {{ write_opt(ix.next_back(), im.next_back(), w[{i}]); }}\n"
+                                  "    assert!(ix.len() == im.len());\n" for i in range(n + 1))
+                walk = "".join("    step(&mut ix, &mut im);\n    assert!(ix.len() == im.len());\n" for _ in range(n + 1))
+                emit(K, cont, n, "get",
+                     "get(i) for every usize i returns the model's get(i) (None exactly when i >= n); get(lo..hi) for every pair of usize "
+                     "(valid, empty, full, inverted, out of range) is Some exactly when the model's is, and then every component sub-slice "
+                     f"(hue and alpha included) has the model sub-slice's length and contents; {POST_DOC}",
+                     "let i: usize = kani::any();\nlet lo: usize = kani::any();\nlet hi: usize = kani::any();\n"
+                     f"same_opt(x.get(i), m.get(i));\nsame_opt_slice(x.get(lo..hi), m.get(lo..hi));\n{POST}",
+                     ["get"], "index and range bounds unrestricted (all usize values)", n, mut=False)
                 emit(K, cont, n, "iter",
-                     f"iter() yields the model's colours in order for n + 1 next() calls (the last returns None on both sides); len(), "
-                     f"size_hint() and count() agree with the model's slice iterator at every step; {POST_DOC}",
+                     "three walks over iter(): (1) n + 1 next() calls yield the model's colours in order (the last returns None on both "
+                     "sides) with len() agreeing with the model's slice iterator at every step, size_hint() before and after the walk, and count(); "
+                     "(2) iter().rev() yields them in reverse order for n + 1 calls; (3) n + 1 calls, each either next() or next_back() "
+                     f"(direction symbolic per call), yield what the model's iterator yields, len() agreeing after every call; {POST_DOC}",
                      "{\n    let mut ix = x.iter();\n    let mut im = m.iter();\n    assert!(ix.len() == im.len());\n"
-                     "    assert!(ix.size_hint() == im.size_hint());\n"
-                     + "".join("    step(&mut ix, &mut im);\n    assert!(ix.len() == im.len());\n" for _ in range(n + 1))
-                     + "}\nassert!(x.iter().count() == m.iter().count());\n" + POST,
-                     ["iter", "next", "len", "size_hint", "count"], "n + 1 next() calls", n, mut=False)
-                emit(K, cont, n, "iter_rev",
-                     f"iter().rev() yields the model's colours in reverse order for n + 1 next() calls; len() agrees at every step; {POST_DOC}",
-                     "{\n    let mut ix = x.iter().rev();\n    let mut im = m.iter().rev();\n    assert!(ix.len() == im.len());\n"
-                     + "".join("    step(&mut ix, &mut im);\n    assert!(ix.len() == im.len());\n" for _ in range(n + 1))
-                     + "}\n" + POST, ["iter", "next_back", "len"], "n + 1 next() calls on the reversed iterator", n, mut=False)
-                emit(K, cont, n, "iter_mixed",
-                     f"iter() consumed by n + 1 calls, each either next() or next_back() (direction symbolic per call): every call yields "
-                     f"what the model's slice iterator yields, len() agrees after every call; {POST_DOC}",
-                     "{\n    let mut ix = x.iter();\n    let mut im = m.iter();\n"
-                     + "".join("    if kani::any() { step(&mut ix, &mut im); } else { step_back(&mut ix, &mut im); }\n"
-                               "    assert!(ix.len() == im.len());\n" for _ in range(n + 1))
-                     + "}\n" + POST, ["iter", "next", "next_back", "len"], "n + 1 calls, every front/back interleaving", n, mut=False)
+                     "    assert!(ix.size_hint() == im.size_hint());\n" + walk + "    assert!(ix.size_hint() == im.size_hint());\n}\n"
+                     "assert!(x.iter().count() == m.iter().count());\n"
+                     "{\n    let mut ix = x.iter().rev();\n    let mut im = m.iter().rev();\n    assert!(ix.len() == im.len());\n" + walk + "}\n"
+                     "{\n    let mut ix = x.iter();\n    let mut im = m.iter();\n" + mixed + "}\n" + POST,
+                     ["iter", "next", "next_back", "len", "size_hint", "count"],
+                     "n + 1 calls per walk; every front/back interleaving in the third walk", n, mut=False)
                 # owned into_iter: items are owned (Vec, array), &u8 (slices) or &mut u8 (mutable slices)
                 if cont in ("vec", "arr"):
                     emit(K, cont, n, "into_iter",
                          "into_iter() (by value) yields the model's owned colours for n + 1 calls, each either next() or next_back() "
-                         "(direction symbolic per call); len() agrees before and after every call",
-                         "let mut ix = x.into_iter();\nlet mut im = m.into_iter();\nassert!(ix.len() == im.len());\n"
-                         + "".join("if kani::any() { step(&mut ix, &mut im); } else { step_back(&mut ix, &mut im); }\n"
-                                   "assert!(ix.len() == im.len());\n" for _ in range(n + 1))
-                         + "kani::cover!(true);", ["into_iter", "next", "next_back", "len"], "n + 1 calls, every front/back interleaving", n, mut=False)
+                         "(direction symbolic per call); len() agrees before and after every call; the partially or fully consumed "
+                         "iterator is then dropped",
+                         "{\n    let mut ix = x.into_iter();\n    let mut im = m.into_iter();\n    assert!(ix.len() == im.len());\n" + mixed
+                         + "}\nkani::cover!(true);", ["into_iter", "next", "next_back", "len"], "n + 1 calls, every front/back interleaving", n, mut=False)
                 elif cont == "slice":
                     emit(K, cont, n, "into_iter",
                          "into_iter() (by value, items are colours of &u8) yields the model's colours for n + 1 calls, each either next() or "
                          f"next_back() (direction symbolic per call); len() agrees before and after every call; {POST_DOC}",
-                         "{\n    let mut ix = x.into_iter();\n    let mut im = m.iter();\n    assert!(ix.len() == im.len());\n"
-                         + "".join("    if kani::any() { step(&mut ix, &mut im); } else { step_back(&mut ix, &mut im); }\n"
-                                   "    assert!(ix.len() == im.len());\n" for _ in range(n + 1))
+                         "{\n    let mut ix = x.into_iter();\n    let mut im = m.iter();\n    assert!(ix.len() == im.len());\n" + mixed
                          + "}\n" + POST, ["into_iter", "next", "next_back", "len"], "n + 1 calls, every front/back interleaving", n, mut=False)
                 if not mutable:
                     continue
                 emit(K, cont, n, "get_mut",
-                     f"get_mut(i) for every usize i is Some exactly when the model's is, refers to the same colour, and writing an arbitrary "
-                     f"colour through the returned references changes exactly that element; {POST_DOC}",
-                     f"let i: usize = kani::any();\nlet c = {own}::sym();\nwrite_opt(x.get_mut(i), m.get_mut(i), c);\n{POST}",
-                     ["get_mut"], "index unrestricted", n)
-                emit(K, cont, n, "get_mut_range",
-                     f"get_mut(lo..hi) for every pair of usize is Some exactly when the model's is, every component sub-slice has the model "
-                     f"sub-slice's length, and writing an arbitrary colour at an arbitrary position p of the sub-slices changes exactly "
-                     f"element lo + p; {POST_DOC}",
-                     f"let lo: usize = kani::any();\nlet hi: usize = kani::any();\nlet p: usize = kani::any();\nlet c = {own}::sym();\n"
-                     f"write_opt_slice(x.get_mut(lo..hi), m.get_mut(lo..hi), p, c);\n{POST}",
-                     ["get_mut"], "range bounds and write position unrestricted", n)
+                     "get_mut(i) for every usize i is Some exactly when the model's is, refers to the same colour, and writing an arbitrary "
+                     "colour through the returned references changes exactly that element; then get_mut(lo..hi) for every pair of usize "
+                     "is Some exactly when the model's is, every component sub-slice (hue and alpha included) has the model sub-slice's "
+                     f"length, and writing an arbitrary colour at an arbitrary position p of the sub-slices changes exactly element lo + p; {POST_DOC}",
+                     "let i: usize = kani::any();\nlet lo: usize = kani::any();\nlet hi: usize = kani::any();\nlet p: usize = kani::any();\n"
+                     f"let c = {own}::sym();\nlet d = {own}::sym();\n"
+                     "write_opt(x.get_mut(i), m.get_mut(i), c);\nwrite_opt_slice(x.get_mut(lo..hi), m.get_mut(lo..hi), p, d);\n" + POST,
+                     ["get_mut"], "index, range bounds and write position unrestricted (all usize values); two writes", n)
                 emit(K, cont, n, "iter_mut",
-                     f"iter_mut() consumed by n + 1 calls, each either next() or next_back() (direction symbolic per call): every yielded "
+                     "iter_mut() consumed by n + 1 calls, each either next() or next_back() (direction symbolic per call): every yielded "
                      f"mutable colour is the model's, and an arbitrary colour written through it lands in that element only; {POST_DOC}",
                      f"let w: [{own}; {n + 1}] = sym_items();\n"
-                     "{\n    let mut ix = x.iter_mut();\n    let mut im = m.iter_mut();\n    assert!(ix.len() == im.len());\n"
-                     + "".join(f"    if kani::any() {{ write_opt(ix.next(), im.next(), w[{i}]); }} else {{ write_opt(ix.next_back(), im.next_back(), w[{i}]); }}\n"
-                               "    assert!(ix.len() == im.len());\n" for i in range(n + 1))
+                     "{\n    let mut ix = x.iter_mut();\n    let mut im = m.iter_mut();\n    assert!(ix.len() == im.len());\n" + mixed_w
                      + "}\n" + POST, ["iter_mut", "next", "next_back", "len"], "n + 1 calls, every front/back interleaving", n + 1)
                 if cont == "mslice":
                     emit(K, cont, n, "into_iter",
@@ -216,9 +210,7 @@ def gen():
                          "every yielded mutable colour is the model's and an arbitrary colour written through it lands in that element "
                          "only (checked on the backing arrays afterwards: all of the model's length, element-wise equal)",
                          f"let w: [{own}; {n + 1}] = sym_items();\n"
-                         "{\n    let mut ix = x.into_iter();\n    let mut im = m.iter_mut();\n    assert!(ix.len() == im.len());\n"
-                         + "".join(f"    if kani::any() {{ write_opt(ix.next(), im.next(), w[{i}]); }} else {{ write_opt(ix.next_back(), im.next_back(), w[{i}]); }}\n"
-                                   "    assert!(ix.len() == im.len());\n" for i in range(n + 1))
+                         "{\n    let mut ix = x.into_iter();\n    let mut im = m.iter_mut();\n    assert!(ix.len() == im.len());\n" + mixed_w
                          + f"}}\nlet y: {soa}<&[u8]> = Soa::from_comps((&b0[..], &b1[..], &b2[..]), Some(&b3[..]));\ncheck_state(y, &m);\nkani::cover!(true);",
                          ["into_iter", "next", "next_back", "len"], "n + 1 calls, every front/back interleaving", n + 1)
 
@@ -263,7 +255,7 @@ def gen():
                  "two steps: a drain(lo..hi) (valid range) consumed by k next() and j next_back() calls (k, j <= 2) and dropped, then push(c): "
                  f"same colours yielded; {POST_DOC}",
                  f"{DRAIN_ARGS(n)}\nlet c = {own}::sym();\n{DRAIN_USE}\nx.push(c);\nm.push(c);\n{POST}",
-                 ["drain", "next", "next_back", "len", "push"], "lo <= hi <= n; k, j <= 2; 2 steps", n + 1, thorough=th)
+                 ["drain", "next", "next_back", "len", "push"], "lo <= hi <= n; k, j <= 2; 2 steps", n + 1, thorough=True)
             emit(K, "vec", n, "script_pop_extend",
                  f"two steps: pop() then extend with j <= 2 arbitrary colours: same colour popped; {POST_DOC}",
                  f"let src: [{own}; 2] = sym_items();\nlet j: usize = kani::any();\nkani::assume(j <= 2);\n"
@@ -276,7 +268,7 @@ def gen():
                  f"{DRAIN_ARGS(n + 1)}\nlet c = {own}::sym();\nx.push(c);\nm.push(c);\n{DRAIN_USE}\n"
                  "{\n    let mut ix = x.iter();\n    let mut im = m.iter();\n    assert!(ix.len() == im.len());\n"
                  + "".join("    step(&mut ix, &mut im);\n" for _ in range(n + 2)) + "}\n" + POST,
-                 ["push", "drain", "iter", "next", "next_back", "len"], "lo <= hi <= n + 1; k, j <= 2; 3 steps", n + 1, thorough=th)
+                 ["push", "drain", "iter", "next", "next_back", "len"], "lo <= hi <= n + 1; k, j <= 2; 3 steps", n + 1, thorough=True)
     o.write()
 
 
